@@ -248,7 +248,8 @@ def c15_compare(desc, obs, base):
 
 # ------------------------------------------------------------------------------------------ C20
 
-TARGETS20 = [{"path": "a"}, {"path": "b"}]
+B20 = "b-" + "\u00e9\u20ac" * 10   # a 52-byte target name made of 2- and 3-byte characters
+TARGETS20 = [{"path": "a"}, {"path": B20}]
 
 
 def parse_tail(out):
@@ -313,7 +314,7 @@ def c20_run(desc):
                 c.auto_points = on_hit
                 c.tick_hook = release_rule
             env = s.env(c.env(points=points))
-            p = c.spawn("run", [common.MONORAIL, "run", "-c"] + cmds + ["-t", "a", "b", "--deps"], r.dir, env)
+            p = c.spawn("run", [common.MONORAIL, "run", "-c"] + cmds + ["-t", "a", B20, "--deps"], r.dir, env)
             viol = []
             nbursts = 2 if desc.get("short") else 3
             for cmd in cmds:
@@ -418,12 +419,12 @@ def c20_run(desc):
 def c20_scenarios(tier):
     out = []
     streams = [["--stdout"], ["--stderr"], ["--stdout", "--stderr"]]
-    tsub = [[], ["a"], ["b"], ["a", "b"]]
+    tsub = [[], ["a"], [B20], ["a", B20]]
     csub = [[], ["build"], ["test"], ["build", "test"]]
     for s_, t, c in itertools.product(streams, tsub, csub):
         out.append({"streams": s_, "targets": t, "commands": c, "short": tier == "quick"})
     # lines written in two parts with a flush tick in between (progress-style output)
-    for s_, t, c in [(["--stdout", "--stderr"], [], []), (["--stdout"], ["a"], []), (["--stderr"], [], ["test"]), (["--stdout", "--stderr"], ["b"], ["build"])]:
+    for s_, t, c in [(["--stdout", "--stderr"], [], []), (["--stdout"], ["a"], []), (["--stderr"], [], ["test"]), (["--stdout", "--stderr"], [B20], ["build"])]:
         out.append({"streams": s_, "targets": t, "commands": c, "short": True, "split": True})
     # line lengths around and beyond typical buffer sizes inside one block (short, long, short)
     for ll in ([8192, 70000] if tier == "quick" else [1000, 4095, 4096, 8191, 8192, 8193, 16384, 65536, 70000, 300000]):
